@@ -198,3 +198,120 @@ def o_c14(spec, obs):
     if obs.get("result") != exp:
         return True, "duration(%s,%s) = %r, expected %r" % (s, e, obs.get("result", obs.get("exception")), exp)
     return False, "ok"
+
+
+# ------------------------------------------------------------------------------- C12
+DAY_BIT = {"MONDAY": 0x02, "TUESDAY": 0x04, "WEDNESDAY": 0x08, "THURSDAY": 0x10, "FRIDAY": 0x20, "SATURDAY": 0x40, "SUNDAY": 0x80}
+
+
+def _days_of(x):
+    x = denorm(x)
+    if isinstance(x, (set, list, tuple)):
+        return list(x)
+    return [x]
+
+
+@oracle("C12enc")
+def o_c12enc(spec, obs):
+    arg = denorm(spec["args"][0])
+    days = _days_of(spec["args"][0])
+    legal = len(days) > 0 and len(set(days)) == len(days)
+    if not legal:
+        if "exception" in obs:
+            return False, "rejected"
+        return True, "empty/duplicate input %r accepted: %r" % (days, obs.get("result"))
+    if "exception" in obs:
+        return True, "legal input raised %s" % obs["exception"]
+    exp = "%02x" % sum(DAY_BIT[d.name] for d in days)
+    if obs["result"] != exp:
+        return True, "mask %r expected %r" % (obs["result"], exp)
+    return False, "ok"
+
+
+@oracle("C12dec")
+def o_c12dec(spec, obs):
+    from aioswitcher.schedule import Days
+
+    mask = spec["args"][0]
+    if not (2 <= mask <= 254):
+        if "exception" in obs:
+            return False, "rejected"
+        return True, "mask %d accepted" % mask
+    if "exception" in obs:
+        return True, "mask %d raised" % mask
+    exp = {"set": sorted(["Days." + d.name for d in Days if mask & DAY_BIT[d.name]], key=repr)}
+    if obs["result"] != exp:
+        return True, "decode(%d) = %r expected %r" % (mask, obs["result"], exp)
+    return False, "ok"
+
+
+@kind("c12_roundtrip")
+def k_c12rt(spec):
+    from aioswitcher.schedule import tools
+
+    days = denorm(spec["args"][0])
+    try:
+        back = tools.bit_summary_to_days(int(tools.weekdays_to_hexadecimal(days), 16))
+        return {"result": norm(back)}
+    except Exception as e:  # noqa: BLE001
+        return exc_name(e)
+
+
+@oracle("C12rt")
+def o_c12rt(spec, obs):
+    exp = norm(denorm(spec["args"][0]))
+    if obs.get("result") != exp:
+        return True, "decode(encode(S)) = %r, S = %r" % (obs.get("result", obs.get("exception")), exp)
+    return False, "ok"
+
+
+# ------------------------------------------------------------------------------- C19
+C19_TYPES = {
+    "MINI": ("030f", 1, "WATER_HEATER"), "POWER_PLUG": ("01a8", 1, "POWER_PLUG"), "TOUCH": ("030b", 1, "WATER_HEATER"),
+    "V2_ESP": ("01a7", 1, "WATER_HEATER"), "V2_QCA": ("01a1", 1, "WATER_HEATER"), "V4": ("0317", 1, "WATER_HEATER"),
+    "BREEZE": ("0e01", 2, "THERMOSTAT"), "RUNNER": ("0c01", 2, "SHUTTER"), "RUNNER_MINI": ("0c02", 2, "SHUTTER"),
+}
+C19_CLASSES = {"SwitcherPowerPlug": "POWER_PLUG", "SwitcherWaterHeater": "WATER_HEATER", "SwitcherThermostat": "THERMOSTAT",
+               "SwitcherShutter": "SHUTTER"}
+
+
+@kind("c19")
+def k_c19(spec):
+    import aioswitcher.device as dev
+    import aioswitcher.api as api
+    import aioswitcher.bridge as bridge
+
+    dt = getattr(dev.DeviceType, spec["dtype"])
+    out = {"hex_rep": dt.hex_rep, "protocol_type": dt.protocol_type, "category": dt.category.name,
+           "udp": bridge.SWITCHER_DEVICE_TO_UDP_PORT.get(dt.category), "tcp": api.SWITCHER_DEVICE_TO_TCP_PORT.get(dt.category),
+           "codes": sorted(d.hex_rep for d in dev.DeviceType)}
+    if spec.get("cls"):
+        common = [dt, dev.DeviceState.ON, "aabbcc", "18", "192.168.1.33", "12:A1:A2:1A:BC:1A", "name"]
+        extra = {"SwitcherPowerPlug": [100, 0.5], "SwitcherWaterHeater": [100, 0.5, "00:00:00", "01:00:00"],
+                 "SwitcherThermostat": [dev.ThermostatMode.COOL, 22.5, 24, dev.ThermostatFanLevel.LOW, dev.ThermostatSwing.OFF, "ELEC7022"],
+                 "SwitcherShutter": [50, dev.ShutterDirection.SHUTTER_STOP]}[spec["cls"]]
+        try:
+            getattr(dev, spec["cls"])(*(common + extra))
+            out["constructed"] = True
+        except ValueError:
+            out["constructed"] = False
+        except Exception as e:  # noqa: BLE001
+            out["constructed"] = "raised %s" % type(e).__name__
+    return out
+
+
+@oracle("C19")
+def o_c19(spec, obs):
+    code, proto, cat = C19_TYPES.get(spec["dtype"], (None, None, None))
+    if (obs["hex_rep"], obs["protocol_type"], obs["category"]) != (code, proto, cat):
+        return True, "type %s reports %r, statement says %r" % (spec["dtype"], (obs["hex_rep"], obs["protocol_type"], obs["category"]), (code, proto, cat))
+    if len(set(obs["codes"])) != len(obs["codes"]):
+        return True, "model codes not unique: %r" % obs["codes"]
+    eu, et = {1: (20002, 9957), 2: (20003, 10000)}[proto]
+    if (obs["udp"], obs["tcp"]) != (eu, et):
+        return True, "ports of %s are %r, expected %r" % (spec["dtype"], (obs["udp"], obs["tcp"]), (eu, et))
+    if spec.get("cls"):
+        want = C19_CLASSES[spec["cls"]] == cat
+        if obs.get("constructed") is not want:
+            return True, "%s(%s) constructed=%r, expected %r" % (spec["cls"], spec["dtype"], obs.get("constructed"), want)
+    return False, "ok"
